@@ -225,8 +225,8 @@ CHECKS = {
         engine="vraft"),
     "C28": dict(
         level="model_checking",
-        text='As C27 with client appends: CommitAgreement, CommitStable (an entry once committed on a node is never removed or replaced) and CommitMonotone are invariants of AgdbRaft.tla and of every validated execution of the real raft.rs. The protocol violates CommitAgreement (defects D13/D13b: TLC counterexample, 13 steps from an established leader, replayed on the real code on every run and reported as KNOWN-FINDING); the model-checking configuration therefore checks the properties for behaviours that no listed defect trigger (RaftCore!Triggers, history variable) explains, and any violation on the real code whose trigger set is not listed is reported.',
-        design='3.9, 4 C28, 6 D13',
+        text='As C27 with client appends: CommitAgreement, CommitStable (an entry once committed on a node is never removed or replaced) and CommitMonotone are invariants of AgdbRaft.tla and of every validated execution of the real raft.rs. The protocol violates CommitAgreement (defects D13/D13b: TLC counterexample, 13 steps from an established leader, replayed on the real code on every run and reported as KNOWN-FINDING); the model-checking configuration therefore checks the properties for behaviours that no listed defect trigger (RaftCore!Triggers, history variable) explains, and any violation on the real code whose trigger set is not listed is reported. The trigger explanation is causal (RaftCore!TrigFor): a listed trigger explains a CommitAgreement / CommitStable violation only if one of the disagreeing entries is tainted by it (committed by the D13 rule without a real majority, or lying below an entry accepted without previous-entry check; taint travels with the entry) or a later leader already lacked a committed entry because of one. Executions in which the code leaves the model (MODEL-DRIFT) are continued from the drifting step 40 times over a benign network and 30 times with the drifting node cut off while the others elect and take appends, then healed. Cluster sizes 3, 4 and 5.',
+        design='A.5, 3.9, 4 C28, 6 D13',
         note="exhaustive only for the constants of the TLC configurations (3 nodes, terms <= 2, log <= 2, budgets of timer firings / "
              "heartbeats / messages in flight, loss decided at send time); schedules on the real code are sampled (seeded, 3 and 5 "
              "nodes); the simulator's log store mirrors ClusterStorage/ClusterLog; raft.rs is the unmodified file from /repo with the "
@@ -251,12 +251,15 @@ CHECKS = {
              "flight and no process() branch is due, a reliable network, all delivery orders; 'eventually' is the state invariant "
              "HealthyProgress (at every quiet state at or after the deadline: exactly one leader, all in its term, equal logs, every entry "
              "appended Settle ms earlier committed everywhere), with a vacuity probe. The vraft simulator runs the real raft.rs in the same "
-             "regime from the cold start and after a fault-ridden election prefix (3 and 5 nodes, 30 s of virtual time, client appends); "
-             "RaftTrace.tla decides conformance of every step and Converged at the final Quiet event.",
+             "regime from the cold start and after a fault-ridden election prefix (2, 3, 4 and 5 nodes, 30 s of virtual time, client appends; "
+             "profiles with client appends DURING the prefix so that the logs differ when the network heals; a second timing "
+             "configuration with heartbeat 250 ms < election factor); RaftTrace.tla decides conformance of every step and Converged at "
+             "the final Quiet event. The two-node model started with terms one apart converges with the repaired vote rule (D24) and "
+             "provably does not without it (probe).",
         design="3.9, 4 C30",
         note="healthy = no loss/duplication, zero latency relative to the timers, process() at every clock step, synchronous clocks, "
              "shipped timer ratios; bounded-time convergence stands in for 'eventually' (model: 1 s after cold start, horizon 5 s; "
-             "implementation: observed after 30 s); healthy schedules on the real code are sampled",
+             "implementation: observed after 30 s); healthy schedules on the real code are sampled; two timing configurations",
         technique="TLA+ model checking (TLC) of the timed healthy model + trace validation of the real raft.rs in a deterministic simulator",
         engine="vraft"),
     "C31": dict(
